@@ -505,7 +505,7 @@ class C09(object):
                              "ops": sp.ops[:30]}
         v = self.compare(wp, wu)
         if v is not None:
-            res["outcome"] = "violation"
+            res["outcome"] = driver.classify(v)
             res["error"] = v
             res["nontrivial"] = False
             res["case"] = self._case(prog, sp.ops, uops, sp.opts)
@@ -562,6 +562,18 @@ class C09(object):
         return uops, wu, None
 
     def compare(self, wp, wu):
+        v = self.compare_plain(wp, wu)
+        if v is not None:
+            cut = items_cut_short(wp, wu)
+            if cut:
+                # precise history of a known finding: the pause landed while a with-items task that
+                # already had a failed item still had items to offer; at rest the task fails instead
+                # of pausing, and the held-back items are never processed
+                return KnownFindingStop("KF-pause-cuts-failing-with-items-short", "C09", v.clause,
+                                        "%s; %s" % (cut, v.msg), ["pause_with_failed_item_and_items_left"])
+        return v
+
+    def compare_plain(self, wp, wu):
         if wp.status != wu.status:
             return Violation("C09", "same_outcome", "final status %s with the pause, %s without" % (wp.status, wu.status))
         if getattr(wp, "failed_while_pausing", False):
@@ -579,8 +591,7 @@ class C09(object):
             def relevant(w, e):
                 # per-item "Execution failed" entries of a with-items task depend on which items got
                 # to run before the task went dormant (see above): not part of the comparison
-                t = (w.p["tasks"].get(e.get("task_id")) or {})
-                return not (t.get("with") and (e.get("message") or "").startswith("Execution failed"))
+                return True
             errp = set(ekey(e) for e in wp.snap["errors"] if relevant(wp, e))
             erru = set(ekey(e) for e in wu.snap["errors"] if relevant(wu, e))
             if errp != erru:
@@ -593,6 +604,7 @@ class C09(object):
                     return Violation("C09", "same_outcome", "output %s differs: with pause %s, without %s"
                                      % (name, canon(op_.get(name))[:100], canon(ou_.get(name))[:100]))
         return None
+
 
     def _case(self, prog, pops, uops, opts):
         return {"mode": "pause-twin", "ast": _ast(prog), "definition": lang.render(prog), "ops": copy.deepcopy(pops),
@@ -611,7 +623,7 @@ class C09(object):
             return ru
         v = self.compare(rp["world"], ru["world"])
         if v is not None:
-            return {"outcome": "violation", "error": v, "world": rp["world"], "stats": {}}
+            return {"outcome": driver.classify(v), "error": v, "world": rp["world"], "stats": {}}
         return rp
 
     def shrink(self, case, vi):
@@ -623,6 +635,25 @@ class C09(object):
             if ok:
                 case = dict(case, ops=ops)
         return case
+
+
+def items_cut_short(wp, wu):
+    """A with-items execution that offered fewer items with the pause than without it, and had an
+    item that did not succeed: returns a description, else None."""
+    for xp in wp.ledger.execs:
+        it = xp.items
+        if not it or not it.get("n"):
+            continue
+        np_ = len(set(it["offered"]))
+        if np_ >= it["n"] or all(st == "succeeded" for st in it["done"].values()):
+            continue
+        for xu in wu.ledger.execs:
+            if (xu.task, xu.route, xu.visit, xu.attempt) == (xp.task, xp.route, xp.visit, xp.attempt) and xu.items:
+                nu = len(set(xu.items["offered"]))
+                if nu > np_:
+                    return ("with-items execution %s offered %d of %d items with the pause, %d without"
+                            % (xp.key(), np_, it["n"], nu))
+    return None
 
 
 # =========================================================================== C17
